@@ -364,11 +364,11 @@ public:
   std::set<std::string>                         poison;     // exact cases that killed an earlier run of this shard
   std::set<std::pair<vf::Hash128, std::string>> poison_ops; // generalised: (state before the last op, last op)
   std::set<int>                                 risky_ops;  // operations that killed an earlier run: probed in a child first
-  std::map<int, int>                            probe_aborts;
+  std::map<int, int>                            probe_aborts, probe_timeouts;
   std::set<int>                                 blacklisted; // operations given up after MAX_PROBE_ABORTS aborts (=> not exhaustive)
   // one execution is a few dozen container operations (microseconds); seconds mean a livelock inside the container
-  static const unsigned CASE_WATCHDOG_S = 10, PROBE_WATCHDOG_S = 4;
-  static const int      MAX_PROBE_ABORTS = 40;
+  static const unsigned CASE_WATCHDOG_S = 10, PROBE_WATCHDOG_S = 2;
+  static const int      MAX_PROBE_ABORTS = 2000, MAX_PROBE_TIMEOUTS = 3;
   int                                           maxdepth;
   double                                        t_end;
   bool                                          cut_by_depth = false, deadline_hit = false, gave_up = false;
@@ -436,8 +436,9 @@ public:
   // Execute hist+op in a forked child only to learn whether the process survives it (sanitizer abort,
   // signal, watchdog).  Used for operations that already killed this shard once, so that one defect
   // reachable from many states cannot exhaust vf's restart budget.  Returns true if the child survived.
-  bool probe_survives(const Config &cfg, const std::vector<Op> &hist, const Op &op)
+  bool probe_survives(const Config &cfg, const std::vector<Op> &hist, const Op &op, bool *timed_out)
   {
+    *timed_out = false;
     fflush(nullptr);
     pid_t pid = fork();
     if (pid < 0) return true;
@@ -459,6 +460,7 @@ public:
     int status = 0;
     while (waitpid(pid, &status, 0) < 0) {
     }
+    *timed_out = WIFEXITED(status) && WEXITSTATUS(status) == 98; // vf::on_fatal_signal(SIGALRM)
     return WIFEXITED(status) && WEXITSTATUS(status) == 0;
   }
   bool parse_replay(const JV &r, Config &c, std::vector<Op> &ops) const
@@ -544,7 +546,8 @@ public:
         if (counting) rep.count("poisoned_cases_skipped");
         continue;
       }
-      if (risky_ops.count(op.c) && !probe_survives(cfg, hist, op)) {
+      bool timed_out = false;
+      if (risky_ops.count(op.c) && !probe_survives(cfg, hist, op, &timed_out)) {
         rep.violation(F.name() + ":" + F.opname(op.c) + ":sanitizer-abort",
                       "the process does not survive this case (sanitizer report, fatal signal or watchdog; see the shard log); "
                       "the same operation already killed an earlier run of this shard, so it is probed in a child process",
@@ -554,7 +557,8 @@ public:
           rep.transitions++;
           rep.executions++;
         }
-        if (++probe_aborts[op.c] >= MAX_PROBE_ABORTS) {
+        if (timed_out && counting) rep.count("probe_timeouts");
+        if (++probe_aborts[op.c] >= MAX_PROBE_ABORTS || (timed_out && ++probe_timeouts[op.c] >= MAX_PROBE_TIMEOUTS)) {
           // the defect is reported; every further abort costs a fork (or a watchdog period): stop executing this
           // operation and say so (the run is then not exhaustive)
           blacklisted.insert(op.c);
